@@ -133,6 +133,8 @@ def _flags(rng, probe_ids, rules):
     if rng.random() < 0.12:
         # informational logging switched on: must not change how failures are contained
         flags = ["--log-level", "INFO"] + flags
+    elif rng.random() < 0.10:
+        flags = [rng.choice(["--stack-trace", "--stack-trace", "--set=log.stack-trace=$!True"])] + flags
     if rules == "some_disabled":
         flags += ["-d", ",".join(rng.sample(["md009", "md010", "md012", "md013", "md022", "md041", "md047", "md031", "md032"], 3))]
     return flags, coe, scheme
